@@ -215,8 +215,11 @@ class Rebin(Contract):
 
     def result(self, c, a):
         m = c.A(a.nu_new).n
-        return c.obj(FILTER, name=c.attr(a.self, 'name'), _wavelength=c.attr(a.self, '_wavelength'), _nu=a.nu_new,
-                     _r=c.fresh_array('rebinned', (m,)))
+        res = c.obj(FILTER, name=c.attr(a.self, 'name'), _wavelength=c.attr(a.self, '_wavelength'), _nu=a.nu_new,
+                    _r=c.fresh_array('rebinned', (m,)))
+        # ghost provenance: which filter was re-binned, to which grid
+        c.interp.__dict__.setdefault('rebin_ghost', {})[res.addr] = (a.self, a.nu_new)
+        return res
 
     def ensures(self, c, a, result, old):
         nu, r = c.A(c.attr(a.self, '_nu')), c.A(c.attr(a.self, '_r'))
